@@ -238,7 +238,7 @@ PROPS['C11'] = dict(
 PROPS['C10'] = dict(
     id='C10', modules=['CollectionModel.Props.C10'],
     key=lambda l: (l.get('k'), l.get('gen'), l.get('fmt'), (l.get('parse') or {}).get('out'), l.get('canon'), l.get('depth'), l.get('shape'), l.get('status'),
-                   min(len(l.get('leaves', [])), 12), min(len(l.get('text', [])) // 40, 10), tuple(sorted(set(x[0].get('t') for x in l.get('leaves', []))))),
+                   min(len(l.get('leaves') or []), 12), min(len(l.get('text') or []) // 40, 10), tuple(sorted(set(x[0].get('t') for x in (l.get('leaves') or []))))),
     nontrivial=lambda l: True, timeout=dict(quick=900, thorough=3000),
     rule="cases = one value of the canonical universe pushed through the real FormatValue -> ParseSource -> CompareValues -> "
          "FormatValue chain (value, text, token stream, strconv verdicts, parsed value, second text, equality), or one call "
